@@ -47,7 +47,8 @@ def showJson (r : Py.M (List (Str × Py.J))) : String :=
 def excName : Py.Exc → String
   | .malformed => "MalformedError" | .mandatory => "MandatoryError" | .rhMalformed => "RHMalformedError"
   | .rhMismatch => "RHScoreDoesNotMatch" | .keyError => "KeyError" | .typeError => "TypeError"
-  | .valueError => "ValueError" | .indexError => "IndexError" | .assertionError => "AssertionError" | .other => "other"
+  | .valueError => "ValueError" | .indexError => "IndexError" | .assertionError => "AssertionError"
+  | .nameError => "NameError" | .zeroDivision => "ZeroDivisionError" | .other => "other"
 
 def v4Metrics : List Str :=
   [c!"AV", c!"AC", c!"AT", c!"PR", c!"UI", c!"VC", c!"VI", c!"VA", c!"SC", c!"SI", c!"SA", c!"CR", c!"IR", c!"AR",
@@ -108,15 +109,13 @@ def handle (line : String) : String :=
       match Code3.construct str with
       | .error e => "err\t" ++ excName e
       | .ok o => s!"ok\t{showORat o.base_score} {showORat o.temporal_score} {showORat o.environmental_score}\t{showMap o.metrics}\t{match o.minor_version with | some i => toString i | none => "None"}"
-  | ["K4", s] =>       -- v4: parse_vector, check_mandatory, add_missing_optional as translated (compute_base_score is not)
+  | ["K4", s] =>       -- the whole translated v4 constructor (incl. compute_base_score) on ANY string
     match decodeStr s with
     | none => "bad-op"
     | some str =>
-      match (do let o ← Code4.parse_vector { (default : Code4.Self) with vector := str, metrics := [] }
-                let _ ← Code4.check_mandatory o
-                Code4.add_missing_optional o) with
+      match Code4.construct str with
       | .error e => "err\t" ++ excName e
-      | .ok o => s!"ok\t{showMap o.metrics}\t{showMap o.original_metrics}"
+      | .ok o => s!"ok\t{showORat o.base_score}\t{match o.severity with | some x => String.ofList x | none => "None"}\t{showMap o.metrics}\t{showMap o.original_metrics}"
   | ["J4", s, num, den] =>   -- v4 compute_severity / as_json as translated, on the object the real code scored
     match decodeStr s, num.toInt?, den.toNat? with
     | some str, some n, some d =>
